@@ -1044,3 +1044,96 @@ def r_parallels_symmetric(cx):
                   "lat_2 is merely absent): `lat_1=45 lat_2=45` and `lat_1=45` are then different projections",
                   cx.where(f.term(bb)["span"]))
     cx.count("R-PARALLELS-SYMMETRIC", "tests", n)
+
+
+@rule("R-LON0-EVERY-WRITE", ["C13", "C01"])
+def r_lon0_every_write(cx):
+    """`lon_0` is equivalent to subtracting it from the input longitude - in every branch of a projection. For each
+    plane projection that declares lon_0: every value its inverse writes has a longitude that depends on lon_0, and
+    every value its forward writes depends on lon_0 (special-cased aspects - the polar branches of laea, the apex of lcc -
+    included; NaN writes and constants excluded)."""
+    from rules.inverse import _keys_deep
+    from rules.loops import classify_write
+    reg = cx.registry()
+    n = 0
+    done = set()
+    for cpath, c in sorted(reg.ctors.items()):
+        names = [x for x in c.names if x in PLANE]
+        if not names or not c.fwd or not c.inv:
+            continue
+        if not any(isinstance(g, dict) and g.get("key") == "lon_0" for g in (c.gamut or [])):
+            continue
+        for role, fn in (("fwd", c.fwd), ("inv", c.inv)):
+            if (fn, role) in done:
+                continue
+            done.add((fn, role))
+            f = cx.f.fn(fn)
+            for pt in pertuple.per_tuple_loops(f):
+                nanb = {bb for bb, m in pt.writes if classify_write(f, bb, m) == "nan"}
+                for wn, (bb, e, nn) in enumerate(written_xy_terms(f, pt)):
+                    if bb in nanb:
+                        continue
+                    terms = (e,) if role == "inv" else (e, nn)
+                    if all(mir.strip_refs(x)[0] == "const" for x in terms):
+                        continue
+                    ks = set()
+                    for x in terms:
+                        ks |= _keys_deep(f, x)
+                        # `op.params.real["lon_0"]`: an index projection with a literal key
+                        mir.walk(x, lambda y: (ks.add(K._const_key(y[2][2])) if y[0] == "proj" and isinstance(y[2], tuple) and
+                                               y[2][0] == "elem" and len(y[2]) > 2 and isinstance(y[2][2], tuple) and
+                                               K._const_key(y[2][2]) else None) or True)
+                    n += 1
+                    ok = any(k in ("lon_0", "lonc", "lon_c") or str(k).startswith("lon") for k in ks)
+                    cx.ob("R-LON0-EVERY-WRITE", "%s/%s/write%d" % (names[0], role, wn), ok,
+                          "%s %s: the written %s depends on lon_0" % (names[0], role, "longitude" if role == "inv" else "coordinates")
+                          if ok else
+                          "%s %s writes a %s that does not depend on lon_0 in one of its branches: for that aspect / special "
+                          "case the central meridian is ignored" % (names[0], role, "longitude" if role == "inv" else "position"),
+                          cx.where(f.term(bb)["span"]))
+    cx.count("R-LON0-EVERY-WRITE", "value_writes", n)
+
+
+@rule("R-NO-INPUT-CLAMP", ["C05", "C10"])
+def r_no_input_clamp(cx):
+    """A coordinate outside the domain of a projection is refused (NaN, not counted), never quietly moved to the border of
+    the domain: in the per-tuple loops of the plane projections no `clamp` / `min` / `max` is applied to an input
+    coordinate element itself (directly or after its conversion to radians). Clamping an intermediate quantity against
+    round-off (the argument of an asin) is a different thing and is not judged here."""
+    reg = cx.registry()
+    n = 0
+    loops = 0
+    done = set()
+    for cpath, c in sorted(reg.ctors.items()):
+        names = [x for x in c.names if x in PLANE]
+        if not names:
+            continue
+        for role, fn in (("fwd", c.fwd), ("inv", c.inv)):
+            if not fn or (fn, role) in done:
+                continue
+            done.add((fn, role))
+            f = cx.f.fn(fn)
+            for pt in pertuple.per_tuple_loops(f):
+                loops += 1
+                xs, ys = input_xy_terms(f, pt)
+                inputs = set(mir.strip_refs(t) for t in list(xs) + list(ys))
+                for bb, t in f.calls():
+                    if bb not in pt.lp.body:
+                        continue
+                    cal = f.callee(t) or ""
+                    if cal.rsplit("::", 1)[-1] not in ("clamp", "min", "max") or "f64" not in cal:
+                        continue
+                    a = f.arg_terms(bb)
+                    v = mir.strip_refs(a[0]) if a else ("unknown",)
+                    for _ in range(4):
+                        if v[0] == "call" and isinstance(v[1], str) and v[1].rsplit("::", 1)[-1] in ("to_radians", "to_degrees", "abs") and v[2]:
+                            v = mir.strip_refs(v[2][0])
+                    if v in inputs:
+                        n += 1
+                        cx.ob("R-NO-INPUT-CLAMP", "%s/%s/clamp%d" % (names[0], role, n - 1), False,
+                              "%s %s clamps an input coordinate to a range instead of refusing values outside it: every point "
+                              "beyond the limit is mapped to the limit's image and counted as a success" % (names[0], role),
+                              cx.where(t["span"]))
+    cx.ob("R-NO-INPUT-CLAMP", "summary", True, "%d per-tuple loops of plane projections clamp no input coordinate" % loops,
+          nontrivial=loops > 0)
+    cx.count("R-NO-INPUT-CLAMP", "loops", loops)
